@@ -43,9 +43,19 @@ class Router:
         return frozenset(self.topics_by_queue.keys())
 
     def include_router(self, router: Router) -> None:
+        for name in router.actors:
+            self.__forget_topic(name)
         self.actors.update(router.actors)
         for queue_name, topics in router.topics_by_queue.items():
             self.topics_by_queue[queue_name].update(topics)
+
+    def __forget_topic(self, name: str) -> None:
+        """Drops the topic of an actor which is about to be overridden from its queue."""
+        if (previous := self.actors.get(name)) is None:
+            return
+        self.topics_by_queue[previous.queue].discard(name)
+        if not self.topics_by_queue[previous.queue]:
+            del self.topics_by_queue[previous.queue]
 
     @overload
     def actor(
@@ -136,6 +146,7 @@ class Router:
                 "followed by letters, digits, dashes or underscores.",
             )
 
+        self.__forget_topic(a.name)
         self.actors[a.name] = a
         self.topics_by_queue[a.queue].add(a.name)
         return fn
